@@ -13,6 +13,7 @@ import FxVerif.Proofs.C14InvG
 import FxVerif.Proofs.C14Gen
 import FxVerif.Proofs.C14Prog
 import FxVerif.Proofs.C14InvK
+import FxVerif.Proofs.C14Acct
 /-!
 # C14 — account migration moves everything, once, to the address that authorised it
 
@@ -119,7 +120,7 @@ theorem migrate_ok_not_blocked {s s' : State} {frm to : Addr} {sigOk : Bool} (h 
 /-- the statement list of `MigrateAccount` and the handlers registered in the app wiring, as read from the source -/
 theorem handler_lists_from_code :
     Gen.C14.handlerOrder = ["check-record-from", "check-record-to", "check-from-account", "validate-all",
-                            "execute-all", "set-record"] ∧
+                            "ensure-to-account", "execute-all", "set-record"] ∧
     Gen.C14.migrateHandlers = ["NewBankMigrate", "NewDistrStakingMigrate", "NewGovMigrate"] := by decide
 
 /-- **`DistrStakingMigrate.Validate` as regenerated check list = the hand-written reading**: the five checks in source
@@ -291,7 +292,13 @@ theorem handler_program_as_modelled (s : State) (frm to : Addr) (sigOk : Bool) :
   have q13 : ("set-record" == "check-from-account") = false := by decide
   have q14 : ("set-record" == "validate-all") = false := by decide
   have q15 : ("set-record" == "execute-all") = false := by decide
-  simp only [runStmts, handlerStmt, q1, q2, q3, q4, q5, q6, q7, q8, q9, q10, q11, q12, q13, q14, q15,
+  have e1 : ("ensure-to-account" == "check-record-from") = false := by decide
+  have e2 : ("ensure-to-account" == "check-record-to") = false := by decide
+  have e3 : ("ensure-to-account" == "check-from-account") = false := by decide
+  have e4 : ("ensure-to-account" == "validate-all") = false := by decide
+  have e5 : ("ensure-to-account" == "execute-all") = false := by decide
+  have e6 : ("ensure-to-account" == "set-record") = false := by decide
+  simp only [runStmts, handlerStmt, q1, q2, q3, q4, q5, q6, q7, q8, q9, q10, q11, q12, q13, q14, q15, e1, e2, e3, e4, e5, e6,
     beq_self_eq_true, Bool.false_eq_true, ↓reduceIte, List.findSome?, execAll,
     (handlerValidate_code _ frm to).1, (handlerValidate_code _ frm to).2.1, (handlerValidate_code _ frm to).2.2,
     (handlerExecute_code cfg _ frm to).1, (handlerExecute_code cfg _ frm to).2.1, (handlerExecute_code cfg _ frm to).2.2,
@@ -2115,5 +2122,237 @@ example : ∃ s', migrate cfg exState 1 11 true = .ok s' ∧
     (match migrate cfg (genesisRoundTrip cfg s') 1 12 true with | .error .migrated => true | _ => false) = true ∧
     (match migrate cfg (genesisRoundTrip cfg s') 2 11 true with | .error .migrated => true | _ => false) = true :=
   ⟨_, rfl, by decide, by decide, by decide, by decide, by decide, by decide, by decide⟩
+
+/-! ## accounts: a migrated unbonding entry matures into an existing account (repair `13ce831`)
+
+`Model/C14Acct.lean`: the state with the set of existing accounts, the pay-out with `UndelegateCoins`' account lookup (a
+delegator without account: the pool is debited, the call fails, the error is ignored — coins destroyed, entry stuck), the
+account set produced by the statement list of `MigrateAccount` (regenerated) and by bank credits.  The driver runs `stepA`. -/
+
+/-- the statement list of `MigrateAccount` as it is in the source creates the target account (`ensure-to-account`: `if
+GetAccount(to) == nil { SetAccount(NewAccountWithAddress(to)) }`, recognised only with both addresses `toAddress` and the
+new account stored) -/
+theorem target_account_created_from_code (to : Addr) : stmtAccounts Gen.C14.handlerOrder to = [to] := by
+  rw [handler_lists_from_code.1]
+  rfl
+
+/-- an accepted migration leaves delegations / unbonding records only where they were, or under the target -/
+theorem accept_keys_from_code : AcceptKeys cfg Gen.C14.handlerOrder Gen.C14.migrateHandlers := by
+  intro s s' frm to sigOk h
+  rw [handler_program_as_modelled] at h
+  refine ⟨fun x v hk => ?_, fun x v hk => ?_⟩
+  · rw [portfolio_moved_delegations h x v] at hk
+    by_cases e : x = to
+    · exact Or.inl e
+    · rw [if_neg e] at hk
+      by_cases e2 : x = frm
+      · rw [if_pos e2] at hk; cases hk
+      · rw [if_neg e2] at hk; exact Or.inr ⟨v, hk⟩
+  · rw [portfolio_moved_unbonding h x v] at hk
+    by_cases e : x = to
+    · exact Or.inl e
+    · rw [if_neg e] at hk
+      by_cases e2 : x = frm
+      · rw [if_pos e2] at hk; cases hk
+      · rw [if_neg e2] at hk; exact Or.inr ⟨v, hk⟩
+
+/-- the history the driver runs (operations with accounts, message server as regenerated program) -/
+abbrev runAcct (a : AState) (ops : List Op) : AState := runA cfg Gen.C14.handlerOrder Gen.C14.migrateHandlers a ops
+
+/-- **no pay-out ever fails** (what the repair makes true): from any state in which every holder of a coin, a delegation or
+an unbonding record exists as an account (`AcctInv`; in particular any state without staking records whose funded addresses
+exist), along EVERY history — migrations to targets that never existed included — the invariant holds, the account lookup
+of `UndelegateCoins` never fails (the store-level state is exactly the one `run` computes without the lookup, so every
+matured entry is paid in full to its delegator, and all theorems about `run` apply), no coin is destroyed, and no account
+disappears -/
+theorem no_payout_fails (a : AState) (inv : AcctInv a) (ops : List Op) :
+    AcctInv (runAcct a ops) ∧ (runAcct a ops).s = run cfg a.s ops ∧ (runAcct a ops).burnt = a.burnt ∧
+    (∀ x, x ∈ a.accts → x ∈ (runAcct a ops).accts) := by
+  obtain ⟨i, e, b, m⟩ := acctInv_runA accept_keys_from_code
+    (fun to => by rw [target_account_created_from_code]; exact List.mem_singleton.mpr rfl) ops inv
+  refine ⟨i, ?_, b, m⟩
+  rw [e]
+  unfold run
+  congr 1
+  funext s o
+  rw [stepP_eq_step]
+
+/-- **every migrated unbonding entry matures into an existing account**: after any history, an accepted migration and any
+later history, the target exists as an account (whether or not it existed, whether or not the source had a liquid coin),
+every unbonding record it holds is one whose pay-out finds the account, and the block that matures them is the block of
+`step`: `later_behaviour_equal` / `portfolio_moved_*` say the full amount reaches the target, `totals_unchanged` + the
+bank lemmas that nothing is lost -/
+theorem migrated_entries_mature_into_account (a : AState) (inv : AcctInv a) (before later : List Op) (frm to : Addr)
+    (s' : State) (h : migrate cfg (run cfg a.s before) frm to true = .ok s') :
+    let a2 := runAcct a (before ++ [Op.migrate frm to true] ++ later)
+    to ∈ a2.accts ∧ a2.burnt = a.burnt ∧ a2.s = run cfg s' later ∧
+    (∀ dt, (stepA cfg Gen.C14.handlerOrder Gen.C14.migrateHandlers a2 (.block dt)).1.s = endBlock a2.s dt ∧
+           (stepA cfg Gen.C14.handlerOrder Gen.C14.migrateHandlers a2 (.block dt)).1.burnt = a.burnt) := by
+  intro a2
+  obtain ⟨i1, e1, b1, _⟩ := no_payout_fails a inv before
+  have hstep : stepA cfg Gen.C14.handlerOrder Gen.C14.migrateHandlers (runAcct a before) (.migrate frm to true) =
+      (acceptA Gen.C14.handlerOrder (runAcct a before) s' to, "ok") := by
+    simp only [stepA]
+    rw [handler_program_as_modelled, e1, h]
+  have hmid : runAcct a (before ++ [Op.migrate frm to true]) = acceptA Gen.C14.handlerOrder (runAcct a before) s' to := by
+    show List.foldl _ a (before ++ [Op.migrate frm to true]) = _
+    rw [List.foldl_append]
+    show (stepA cfg Gen.C14.handlerOrder Gen.C14.migrateHandlers (runAcct a before) (.migrate frm to true)).1 = _
+    rw [hstep]
+  have i2 : AcctInv (acceptA Gen.C14.handlerOrder (runAcct a before) s' to) := by
+    have := (acctInv_stepA accept_keys_from_code
+      (fun to => by rw [target_account_created_from_code]; exact List.mem_singleton.mpr rfl) i1 (.migrate frm to true)).1
+    rw [hstep] at this
+    exact this
+  have hto : to ∈ (acceptA Gen.C14.handlerOrder (runAcct a before) s' to).accts := by
+    simp [acceptA, target_account_created_from_code]
+  have ha2 : a2 = runAcct (acceptA Gen.C14.handlerOrder (runAcct a before) s' to) later := by
+    show List.foldl _ a (before ++ [Op.migrate frm to true] ++ later) = _
+    rw [List.foldl_append]
+    show runAcct (runAcct a (before ++ [Op.migrate frm to true])) later = _
+    rw [hmid]
+  obtain ⟨i3, e3, b3, m3⟩ := no_payout_fails _ i2 later
+  rw [← ha2] at i3 e3 b3 m3
+  refine ⟨m3 to hto, by rw [b3]; exact b1, e3, fun dt => ?_⟩
+  rw [stepA_block i3]
+  exact ⟨rfl, by rw [b3]; exact b1⟩
+
+/-- **the statement is necessary**: with a statement list that does not create the target account, an accepted migration
+of a source without any liquid coin (the bank handler sends nothing) to an address that does not exist leaves it without
+account — while `portfolio_moved_unbonding` puts every unbonding record of the source under it: `AcctInv` is lost and the
+pay-out of the first matured entry fails (the `example` below runs it) -/
+theorem unensured_target_stays_without_account (a : AState) (stmts : List String) (frm to : Addr) (sigOk : Bool)
+    (s' : State) (hst : stmtAccounts stmts to = []) (h : migrate cfg a.s frm to sigOk = .ok s')
+    (hliq : ∀ d, balOf a.s.bal frm d = 0) (hno : to ∉ a.accts) : to ∉ (acceptA stmts a s' to).accts := by
+  intro hm
+  simp only [acceptA, hst, List.append_nil, List.mem_append] at hm
+  rcases hm with hm | hm
+  · exact hno hm
+  · unfold credited at hm
+    obtain ⟨p, hp, e⟩ := List.mem_map.mp hm
+    have hlt := (List.mem_filter.mp hp).2
+    simp only [decide_eq_true_eq] at hlt
+    rw [e, portfolio_moved_balances h to p.1.2, if_pos rfl, hliq p.1.2] at hlt
+    omega
+
+/-- a source without liquid coin (everything delegated), a target (17) that never existed -/
+def exFresh : AState :=
+  { s := { vals := [100], hasKey := [1], valTok := [(100, 1000)], period := [(100, 2)],
+           bal := [((1, 0), 90), ((bondedPool, 0), 1000), ((notBondedPool, 0), 5)] },
+    accts := [1, bondedPool, notBondedPool] }
+
+def exFreshOps : List Op :=
+  [.delegate 1 100 90 0, .undelegate 1 100 10 0, .block 5, .migrate 1 17 true, .block 300, .block 1]
+
+/-- non-vacuity of `unensured_target_stays_without_account`: after delegate (everything) / undelegate / block the source 1 has
+no liquid coin, 17 has no account, and the migration of 1 to 17 is accepted -/
+example : let a := runAcct exFresh [.delegate 1 100 90 0, .undelegate 1 100 10 0, .block 5]
+    (∀ d, balOf a.s.bal 1 d = 0) ∧ 17 ∉ a.accts ∧ (∃ s', migrate cfg a.s 1 17 true = .ok s') ∧
+    stmtAccounts ["check-record-from", "check-record-to", "check-from-account", "validate-all", "execute-all", "set-record"] 17 = [] := by
+  intro a
+  refine ⟨fun d => ?_, by decide, ⟨_, rfl⟩, rfl⟩
+  have hb : a.s.bal = [((notBondedPool, 0), 15), ((bondedPool, 0), 1080)] := by decide
+  have hn : Model.C14.get a.s.bal (1, d) = none := by
+    apply get_none_of_no_key
+    intro p hp
+    rw [hb] at hp
+    simp only [List.mem_cons, List.not_mem_nil, or_false] at hp
+    rcases hp with rfl | rfl <;> intro e <;> cases e
+  unfold balOf
+  rw [hn]
+  rfl
+
+theorem exFresh_inv : AcctInv exFresh := by
+  refine ⟨fun x d hp => ?_, fun x v hk => ?_, fun x v hk => ?_⟩
+  · show x ∈ [1, bondedPool, notBondedPool]
+    by_cases h1 : x = 1
+    · simp [h1]
+    by_cases h2 : x = bondedPool
+    · simp [h2]
+    by_cases h3 : x = notBondedPool
+    · simp [h3]
+    exfalso
+    have hn : Model.C14.get exFresh.s.bal (x, d) = none := by
+      apply get_none_of_no_key
+      intro p hp
+      have hb : exFresh.s.bal = [((1, 0), 90), ((bondedPool, 0), 1000), ((notBondedPool, 0), 5)] := rfl
+      rw [hb] at hp
+      simp only [List.mem_cons, List.not_mem_nil, or_false] at hp
+      rcases hp with rfl | rfl | rfl <;> intro e <;> cases e <;> first | exact h1 rfl | exact h2 rfl | exact h3 rfl
+    unfold balOf at hp
+    rw [hn] at hp
+    simp at hp
+  · have : exFresh.s.dels = [] := rfl
+    rw [this, get_nil] at hk; cases hk
+  · have : exFresh.s.ubds = [] := rfl
+    rw [this, get_nil] at hk; cases hk
+
+/-- **totals unchanged at maturity**: in every state in which the holders exist as accounts (by `no_payout_fails`: every state
+of every history from such a state), the staking end blocker destroys nothing and keeps, per denomination, the total over any
+duplicate-free set of accounts that contains the not-bonded pool and the existing accounts (the pool itself holding no
+unbonding record) — every matured entry, migrated or not, leaves the pool and arrives at its delegator in full -/
+theorem totals_unchanged_at_maturity (a : AState) (inv : AcctInv a) (A : List Addr) (hA : A.Nodup)
+    (hp : notBondedPool ∈ A) (hall : ∀ x, x ∈ a.accts → x ∈ A)
+    (hpool : ∀ v, Model.C14.get a.s.ubds (notBondedPool, v) = none) (den : Denom) :
+    (stakingEndA a.accts a.s a.burnt).2 = a.burnt ∧
+    sumOver A (fun x => balOf (stakingEndA a.accts a.s a.burnt).1.bal x den) = sumOver A (fun x => balOf a.s.bal x den) := by
+  rw [stakingEndA_eq a.accts a.s a.burnt (fun k hk => inv.ubd k.1 k.2 hk)]
+  refine ⟨rfl, stakingEnd_supply a.s A hA hp (fun k hk => ⟨hall _ (inv.ubd k.1 k.2 hk), fun e => ?_⟩) den⟩
+  have := hpool k.2
+  rw [← e] at this
+  rw [this] at hk
+  cases hk
+
+/-- the base case of `no_payout_fails`: a state without delegations and unbonding records in which every address with a
+balance entry exists as an account (a chain before any staking activity) -/
+theorem accounts_invariant_base (a : AState) (hd : a.s.dels = []) (hu : a.s.ubds = [])
+    (hb : ∀ p ∈ a.s.bal, p.1.1 ∈ a.accts) : AcctInv a := acctInv_base a hd hu hb
+
+/-- a migration delivered as a transaction through `FinalizeBlock` (what the driver's `txblock` line runs on the state with
+accounts) is a history of `runAcct`: `no_payout_fails` and `migrated_entries_mature_into_account` cover it -/
+theorem tx_block_accounts_is_a_history (a : AState) (dt fee : Nat) (txSigner frm to : Addr) (sigOk : Bool) :
+    txBlockA cfg Gen.C14.handlerOrder Gen.C14.migrateHandlers a dt fee txSigner frm to sigOk =
+      (runAcct a (txOps cfg a.s dt fee txSigner frm to sigOk).1, (txOps cfg a.s dt fee txSigner frm to sigOk).2) := by
+  unfold txBlockA
+  rfl
+
+example : AcctInv exFresh := accounts_invariant_base exFresh rfl rfl (by decide)
+
+/-- the state of `exFresh` after delegate / undelegate / migration to the never-existing 17, at the block in which the
+migrated entry has matured -/
+def exFreshMature : AState :=
+  runAcct exFresh [.delegate 1 100 90 0, .undelegate 1 100 10 0, .block 5, .migrate 1 17 true, .block 300]
+
+/-- non-vacuity of `totals_unchanged_at_maturity`: its hypotheses hold in `exFreshMature` for the set {1, 17, pools}, and the
+end blocker there pays the migrated entry (10) to the target -/
+example : AcctInv exFreshMature ∧ (∀ x, x ∈ exFreshMature.accts → x ∈ [1, 17, bondedPool, notBondedPool]) ∧
+    (∀ v, Model.C14.get exFreshMature.s.ubds (notBondedPool, v) = none) ∧
+    balOf exFreshMature.s.bal 17 0 = 0 ∧
+    balOf (stakingEndA exFreshMature.accts exFreshMature.s exFreshMature.burnt).1.bal 17 0 = 10 := by
+  refine ⟨(no_payout_fails exFresh exFresh_inv _).1, by decide, fun v => ?_, by decide, by decide⟩
+  have hu : exFreshMature.s.ubds = [((17, 100), [(300, 10, 1)])] := by decide
+  rw [hu]
+  apply get_none_of_no_key
+  intro p hp
+  simp only [List.mem_cons, List.not_mem_nil, or_false] at hp
+  subst hp
+  intro e
+  cases e
+
+/-- non-vacuity, and what the `ensure-to-account` statement is for: `AcctInv` holds in `exFresh`; with the statement list as
+it is in the source the target 17 exists after the migration, the matured entry (10) is paid to it and nothing is destroyed;
+with the statement list of the code before the repair (no `ensure-to-account`) the same history leaves 17 without account,
+the pay-out debits the pool and fails: 10 coins destroyed, the target holds nothing -/
+example : (17 ∈ (runAcct exFresh exFreshOps).accts ∧ (runAcct exFresh exFreshOps).burnt = 0 ∧
+      balOf (runAcct exFresh exFreshOps).s.bal 17 0 = 10) ∧
+    (let old := ["check-record-from", "check-record-to", "check-from-account", "validate-all", "execute-all", "set-record"]
+     let b := runA cfg old Gen.C14.migrateHandlers exFresh exFreshOps
+     (b.accts.contains 17 = false ∧ b.burnt = 10 ∧ balOf b.s.bal 17 0 = 0 ∧ balOf b.s.bal notBondedPool 0 = 5)) :=
+  ⟨⟨by decide, by decide, by decide⟩, ⟨by decide, by decide, by decide, by decide⟩⟩
+
+/-- the hypotheses of `migrated_entries_mature_into_account` are satisfiable: the migration of 1 to the never-existing 17 is
+accepted after delegate / undelegate / block -/
+example : ∃ s', migrate cfg (run cfg exFresh.s [.delegate 1 100 90 0, .undelegate 1 100 10 0, .block 5]) 1 17 true = .ok s' :=
+  ⟨_, rfl⟩
 
 end FxVerif.Props.C14
